@@ -103,3 +103,19 @@ ENSURES(RET == 1 IMPLIES (REC_SLICE(*random, 32, record) && (*session_id == NULL
 	&& __CPROVER_uninterpreted_cipher_known(*cipher_suite) != 0 && *protocol >= ((((int)record[1]) << 8) | record[2])))
 ;
 #endif
+
+#ifdef CONTRACT_TLS_HELLO
+int tls_record_get_handshake_client_hello(const uint8_t *record, int *protocol, const uint8_t **random, const uint8_t **session_id, size_t *session_id_len,
+	const uint8_t **cipher_suites, size_t *cipher_suites_len, const uint8_t **exts, size_t *exts_len)
+REQUIRES(record == NULL || REC_REQ(record))
+REQUIRES((protocol == NULL || WR_OK(protocol, sizeof(int))) && (random == NULL || WR_OK(random, sizeof(*random))) && (session_id == NULL || WR_OK(session_id, sizeof(*session_id)))
+	&& (session_id_len == NULL || WR_OK(session_id_len, sizeof(size_t))) && (cipher_suites == NULL || WR_OK(cipher_suites, sizeof(*cipher_suites))) && (cipher_suites_len == NULL || WR_OK(cipher_suites_len, sizeof(size_t)))
+	&& (exts == NULL || WR_OK(exts, sizeof(*exts))) && (exts_len == NULL || WR_OK(exts_len, sizeof(size_t))))
+ASSIGNS(protocol != NULL: *protocol; random != NULL: *random; session_id != NULL: *session_id; session_id_len != NULL: *session_id_len;
+	cipher_suites != NULL: *cipher_suites; cipher_suites_len != NULL: *cipher_suites_len; exts != NULL: *exts; exts_len != NULL: *exts_len)
+ENSURES(RET == 1 || RET == -1)
+ENSURES(RET == 1 IMPLIES (REC_SLICE(*random, 32, record) && (*session_id == NULL ? *session_id_len == 0 : (*session_id_len >= 1 && *session_id_len <= 32 && REC_SLICE(*session_id, *session_id_len, record)))
+	&& *cipher_suites_len % 2 == 0 && (*cipher_suites == NULL ? *cipher_suites_len == 0 : REC_SLICE(*cipher_suites, *cipher_suites_len, record))
+	&& (*exts == NULL ? *exts_len == 0 : REC_SLICE(*exts, *exts_len, record))))
+;
+#endif
